@@ -35,6 +35,13 @@ def one_case(args):
             sched += ":%d:%d:%d" % (rng.choice([4, 7, 2, 5]), rng.choice([5, 30]), rng.choice([1, 3]))
         env["FASTPASTA_VERIF_SCHED"] = sched
     npk = rng.choice([300, 2000, 6000]) if tier == "quick" else rng.choice([300, 2000, 12000, 30000])
+    # an output destination given together with a check / view is documented as ignored (warning); the reader's queue (100 batches of 100
+    # packets) only fills up with more than ~10 100 matching packets, so these cases use one long link
+    ignored_output = kind in ("signal_pipe", "signal_file", "cap", "fatal", "fatal_stall") and rng.random() < 0.4
+    one_link = None
+    if ignored_output:
+        npk = 16000 if tier == "quick" else rng.choice([16000, 40000])
+        one_link = 1
     files = {}
     argv = None
     kw = {}
@@ -42,7 +49,7 @@ def one_case(args):
     out_path = None
     expected_filtered = None
     if kind in ("signal_pipe", "signal_file", "signal_writer"):
-        s = big_stream(rng, npk, errors=rng.random() < 0.5)
+        s = big_stream(rng, npk, errors=rng.random() < 0.5, nlinks=one_link)
         data = s.serialize()
         mode = rng.choice([["check", "all", "its"], ["check", "all", "its-stave"], ["view", "rdh"], ["check", "sanity"], ["view", "its-readout-frames"]])
         signum = rng.choice([signal.SIGINT, signal.SIGTERM])
@@ -80,7 +87,7 @@ def one_case(args):
         kw = dict(close_stdout_after=n)
         desc = "%s: %d packets, %s, stdout closed after %d bytes" % (kind, npk, " ".join(argv[2:6]), n)
     elif kind == "cap":
-        s = big_stream(rng, npk, errors=True, nlinks=rng.choice([4, 8, 12]))
+        s = big_stream(rng, npk, errors=True, nlinks=one_link or rng.choice([4, 8, 12]))
         data = s.serialize()
         p = os.path.join(wd, "c%d.raw" % case)
         write_file(p, data)
@@ -88,7 +95,7 @@ def one_case(args):
         argv = [exe, p] + rng.choice([["check", "all"], ["check", "all", "its"], ["check", "all", "its-stave"]]) + ["-e", str(cap), "-E", str(N)]
         desc = "cap: %d packets with errors on %d links, -e %d" % (npk, len(s.links), cap)
     else:
-        s = big_stream(rng, npk if kind == "fatal" else max(npk, 12000), nlinks=rng.choice([1, 2, 4]))
+        s = big_stream(rng, npk if kind == "fatal" else max(npk, 12000), nlinks=one_link or rng.choice([1, 2, 4]))
         pk = s.all_packets()
         i = rng.choice([1, 50, 99, 100, 101, len(pk) // 2, len(pk) - 1])
         pk[i].f["offset_to_next"] = rng.choice([0, 10, 10065, 0xFFFF])
@@ -103,6 +110,9 @@ def one_case(args):
         if use_pipe:
             kw = dict(stdin_data=data, chunk=32768)
         desc = "%s: fatal framing error at packet %d of %d, %s" % (kind, i, len(pk), " ".join(argv[1:5]))
+    if ignored_output:
+        argv = argv + ["-f", str(s.links[0].link_id), "-o", os.path.join(wd, "c%d.ignored" % case)]
+        desc += " + ignored -f/-o"
     out["sample"] = desc + (" [schedule %s]" % sched if sched else "")
     o = procmon.run(argv, env=env, cwd=wd, **kw)
 
